@@ -427,5 +427,80 @@ fn main() {
             }
         });
     }
+    // map-backed builders: the same specification on Performance::new(&map) and on Performance::new(attributes of that map)
+    // must generate the same state, obeying the same invariants (the builder must not trust a fully specified state more
+    // because it holds a map)
+    {
+        use vh::gen::{Kind, MapSpec, Obj, PosK};
+        let o = |k, gap, pos, col| Obj { kind: k, gap, pos, sound: 0, col };
+        let specs: Vec<MapSpec> = vec![
+            MapSpec::new(0, vec![o(Kind::Circle, 0, PosK::Same, 0), o(Kind::SliderLong, 150, PosK::Far, 0), o(Kind::Circle, 600, PosK::Far, 0), o(Kind::Spinner(600), 150, PosK::Same, 0)]),
+            MapSpec::new(1, vec![o(Kind::Circle, 0, PosK::Same, 0), o(Kind::Circle, 150, PosK::Far, 0), o(Kind::Slider2, 150, PosK::Far, 0), o(Kind::Circle, 600, PosK::Far, 0)]),
+            MapSpec::new(2, vec![o(Kind::Circle, 0, PosK::Same, 0), o(Kind::SliderLong, 150, PosK::Far, 0), o(Kind::Circle, 600, PosK::Far, 0)]),
+            MapSpec::new(3, vec![o(Kind::Circle, 0, PosK::Same, 0), o(Kind::Hold(300), 150, PosK::Same, 2), o(Kind::Circle, 150, PosK::Same, 1), o(Kind::Hold(100), 100, PosK::Same, 0)]),
+        ];
+        for spec in specs {
+            let map = spec.decode();
+            let attrs = Difficulty::new().calculate(&map);
+            let n = map.hit_objects.len() as u32;
+            let vals: Vec<Option<u32>> = vec![None, Some(0), Some(1), Some(n), Some(n + 3)];
+            // slots n300, n100, n50, n_katu, n_geki, misses, combo, (large ticks / slider ends), accuracy, origin
+            let radices: Vec<u64> = vec![5, 5, 5, 5, 5, 5, 5, 3, 3, 3];
+            let total = product(&radices);
+            let name = format!("map-backed/mode{}", spec.mode);
+            ctx.universe(&name, total, |idx, l: &mut Local<'_>| {
+                let mut d = vec![0u64; radices.len()];
+                unrank(idx, &radices, &mut d);
+                fn id<'a, F: Fn(Performance<'a>) -> Performance<'a>>(f: F) -> F {
+                    f
+                }
+                let apply = id(|mut p| {
+                    match d[9] {
+                        1 => p = p.lazer(false),
+                        2 => p = p.mods(ModSpec::Classic(None).build(map.mode)),
+                        _ => {}
+                    }
+                    if let Some(v) = vals[d[0] as usize] { p = p.n300(v); }
+                    if let Some(v) = vals[d[1] as usize] { p = p.n100(v); }
+                    if let Some(v) = vals[d[2] as usize] { p = p.n50(v); }
+                    if let Some(v) = vals[d[3] as usize] { p = p.n_katu(v); }
+                    if let Some(v) = vals[d[4] as usize] { p = p.n_geki(v); }
+                    if let Some(v) = vals[d[5] as usize] { p = p.misses(v); }
+                    if let Some(v) = vals[d[6] as usize] { p = p.combo(v * 3); }
+                    match d[7] {
+                        1 => p = p.large_tick_hits(0).small_tick_hits(0).slider_end_hits(0),
+                        2 => p = p.large_tick_hits(n + 3).small_tick_hits(n + 3).slider_end_hits(n + 3),
+                        _ => {}
+                    }
+                    match d[8] {
+                        1 => p = p.accuracy(50.0),
+                        2 => p = p.accuracy(100.0),
+                        _ => {}
+                    }
+                    p
+                });
+                let mut pm = apply(Performance::new(map.clone()));
+                let mut pa = apply(Performance::new(attrs.clone()));
+                let (sm, sa) = (pm.generate_state(), pa.generate_state());
+                l.states(1);
+                l.checked(2);
+                l.nontrivial();
+                if sm != sa {
+                    l.violation("map_vs_attrs_state", || format!("mode {} digits={d:?}\nthe builder holding the map generates {sm:?}\nthe builder holding its attributes generates {sa:?}\n--- .osu ---\n{}", spec.mode, spec.text()));
+                    return;
+                }
+                // (misses <= objects is decided on the synthetic shapes, where the number of judgements is known exactly)
+                if map.mode != GameMode::Mania && sm.max_combo > attrs.max_combo() {
+                    l.violation("map_backed_bounds", || format!("mode {} digits={d:?}: generated {sm:?} on a map with {n} objects and max combo {}", spec.mode, attrs.max_combo()));
+                    return;
+                }
+                let (rm, ra) = (pm.calculate(), pa.calculate());
+                l.checked(2);
+                if !same(&rm, &ra) {
+                    l.violation("map_vs_attrs_result", || format!("mode {} digits={d:?}\n map  : {rm:?}\n attrs: {ra:?}", spec.mode));
+                }
+            });
+        }
+    }
     ctx.finish();
 }
